@@ -27,9 +27,18 @@ logging.getLogger("scapy.runtime").setLevel(logging.ERROR)
 from . import cover  # noqa: E402  (development aid, inert unless VERIF_COVER is set)
 
 cover.start()
-import tlexport.main as tmain  # noqa: E402  (preloaded once; children are forked from here)
+IMPORT_ERROR = None
+_argv = sys.argv
+try:
+    sys.argv = ["tlexport", "--help-is-not-wanted-at-import"]
+    import tlexport.main as tmain  # noqa: E402  (preloaded once; children are forked from here)
+except BaseException:       # the program cannot even be imported (or runs at import time): every run of it is a failed run, which the checks report
+    tmain = None
+    IMPORT_ERROR = traceback.format_exc()
+finally:
+    sys.argv = _argv
 
-assert os.path.realpath(tmain.__file__).startswith(os.path.realpath(REPO) + os.sep), tmain.__file__
+assert tmain is None or os.path.realpath(tmain.__file__).startswith(os.path.realpath(REPO) + os.sep), tmain.__file__
 
 _CPU_HITS = [0]
 CHILD_AT_EXIT = []   # callables run in the forked child just before it exits (monitors flush their event logs here)
@@ -72,6 +81,8 @@ def run_tlexport(files, argv, child_setup=None, cpu=60, wall=900, cwd=None, outn
     status: 'ok' | 'exit:<n>' (SystemExit) | 'crash' (uncaught exception, traceback in stderr) |
             'cpu' (CPU budget exhausted: non-termination) | 'timeout' (wall clock only: inconclusive) | 'signal:<n>'"""
     t0 = time.time()
+    if tmain is None:
+        return Result("crash", [None] * len(outnames), b"", ("importing tlexport.main failed:\n" + IMPORT_ERROR).encode(), 0.0, b"")
     if _CPU_HITS[0] >= 3:
         cpu = min(cpu, 5)       # this worker has already seen three runs exhaust their CPU budget: the verdict stands, do not spend a minute on every further run
     d = scratch_dir()
